@@ -14,6 +14,13 @@ Ops (`e` = exchange id of the execution link the op is executed on):
   `map e` | `fexid e x` | `fexix e id` | `fan e a` | `fai e name` | `fin e i` | `fii e name`
   `oreq e <exIdx> <instIdx> <cid> (open|cancel) <p>` | `okey e <exId> <name> <cid>`
   `bal e <name> <p>` | `trade e <name> <p>` | `ev e <event>` | `mgr e (open|cancel) <exIdx> <instIdx> <cid> <p>`
+  `route <n> <e>*n (open|cancel) <exIdx> <instIdx> <cid> <p>`
+        end to end: a fresh `ExecutionBuilder` over the collection, `add_live` for the `n` exchange
+        ids in this order, `build()` + `init()`, then the request is sent through
+        `execution_txs.find(&ExchangeIndex(exIdx))`. Observations: `txmap id:0|1 …` (the slots),
+        `r ok|err|panic|builderr <kind>|buildpanic`, `delivered <number of client calls>`,
+        `client <receiving client's exchange id> <request>`, `mpanic <exchange id of the manager
+        that panicked>`, `resp <engine key of the echoed answer>|filtered`
 Event grammar (prefix, counts before lists):
   event := exId kind ; kind := S snap | B bal | O order | C cresp | T trade
   snap := exId nb bal* ni (inst no order*)* ; bal := asset p ; trade := inst p
@@ -366,12 +373,57 @@ def modelQuery (c : Coll) (op : String) (e : Nat) (rest : List String) : List St
       | _, _, _, _ => ["bad-op"]
     | _, _ => ["bad-op"]
 
+/-! the `route` op -/
+
+structure RouteOp where
+  adds : List Nat
+  kind : String
+  o : OEvent Nat Nat
+
+def pRouteOp (ts : List String) : Option RouteOp :=
+  match pList pNat ts with
+  | some (adds, [kind, x, i, cid, p]) =>
+    match x.toNat?, i.toNat?, cid.toNat?, p.toNat? with
+    | some x, some i, some cid, some p =>
+      if kind == "open" || kind == "cancel" then
+        some { adds := adds, kind := kind, o := { key := { exchange := x, instrument := i, cid := cid }, state := p } }
+      else none
+    | _, _, _, _ => none
+  | _ => none
+
+def routedLines (kind : String) (r : Routed) (resp : List String) : List String :=
+  match r with
+  | .noTx => ["r err", "delivered 0"]
+  | .managerPanic who => ["r panic", "delivered 0", s!"mpanic {who}"]
+  | .delivered who req =>
+    ["r ok", "delivered 1", line ("client" :: toString who :: sOEvent kind req)] ++ resp
+
+def modelRoute (c : Coll) (rest : List String) : List String :=
+  match pRouteOp rest with
+  | none => ["bad-op"]
+  | some op =>
+    match buildExecution c op.adds with
+    | .error .index => ["r builderr index"]
+    | .error .duplicate => ["r builderr duplicate"]
+    | .ok none => ["r buildpanic"]
+    | .ok (some t) =>
+      line ("txmap" :: t.map fun s => s!"{s.1}:{if s.2.isSome then 1 else 0}") ::
+        routedLines op.kind (route t op.o)
+          [line ("resp" :: (match routeResponse t op.o with
+                            | some k => sKey k
+                            | none => ["filtered"]))]
+
 def queryOps : List String :=
   ["map", "fexid", "fexix", "fan", "fai", "fin", "fii", "oreq", "okey", "bal", "trade", "ev", "mgr"]
 
-def step (query : Coll → String → Nat → List String → List String) (buildOut : Coll → List String)
+def step (query : Coll → String → Nat → List String → List String)
+    (routeQ : Coll → List String → List String) (buildOut : Coll → List String)
     (s : Option Coll) (toks : List String) : Option Coll × List String :=
   match toks with
+  | "route" :: rest =>
+    match s with
+    | some c => (s, routeQ c rest)
+    | none => (s, ["bad-op"])
   | "build" :: rest =>
     match full pColl rest with
     | some c => (some c, buildOut c)
@@ -399,7 +451,7 @@ def step (query : Coll → String → Nat → List String → List String) (buil
 
 def model : Drv (Option Coll) where
   init := none
-  step := step modelQuery collLines
+  step := step modelQuery modelRoute collLines
 
 /-! ## spec driver: prints only `r`, `back`, `massets`, `minstruments`, `client`, `resp`, and only
 when the collection is well-formed for the queried exchange (otherwise the property does not
@@ -484,9 +536,25 @@ def specQuery (c : Coll) (op : String) (e : Nat) (rest : List String) : List Str
     | _, _, _, _ => ["bad-op"]
   | _, _ => ["bad-op"]
 
+/-- The `route` op from the property text: the set of exchanges with a link (`adds`, when it is a
+duplicate-free selection of the collection's exchanges — otherwise the builder refuses and the
+property says nothing), the exchange at the request's exchange index, the instrument at its
+instrument index. Own client + own names, or an error and nothing delivered. The answer is
+attributed to the request's own engine key (when names on that exchange are unambiguous). -/
+def specRouteQ (c : Coll) (rest : List String) : List String :=
+  match pRouteOp rest with
+  | none => ["bad-op"]
+  | some op =>
+    if !(decide (WFX c) && decide op.adds.Nodup && op.adds.all (specHasLink c)) then [] else
+    match specRoute c op.adds op.o with
+    | .delivered who req =>
+      routedLines op.kind (.delivered who req)
+        (if decide (WF c who) then [line ("resp" :: sKey op.o.key)] else [])
+    | r => routedLines op.kind r []
+
 def spec : Drv (Option Coll) where
   init := none
-  step := step specQuery (fun _ => [])
+  step := step specQuery specRouteQ (fun _ => [])
 
 end BarterModel.Driver.C04
 
